@@ -133,6 +133,7 @@ def run(ctx):
     ctx.ensure_theories(['theories/C03/Props.vo'])
     ctx.theorems('OdakV.C03.Props', PROPS)
     W.trace_and_tie(ctx)
+    W.dft_instance(ctx)
     W.fft_contracts(ctx)
     for name, inp in gen_inputs(ctx, 40 if ctx.thorough else 8):
         apply_oracle(ctx, name, inp)
